@@ -135,4 +135,75 @@ MUTATIONS = {
         old="        finally:\n            if finalize:\n                render_data.finalize()",
         new="        finally:\n            if finalize or check_size:\n                render_data.finalize()",
     ),
+    # ---- C06 / C07 ---------------------------------------------------------------------
+    "c06-rewind-one-too-many": dict(
+        file="renderable/_renderable.py", props=["C06"],
+        old='f"\\r{cursor_up(height + pad_bottom - 1)}{cursor_forward(pad_left)}"\n                )\n                flush()',
+        new='f"\\r{cursor_up(height + pad_bottom)}{cursor_forward(pad_left)}"\n                )\n                flush()',
+    ),
+    "c06-no-forward-after-rewind": dict(
+        file="renderable/_renderable.py", props=["C06"],
+        old='            f"\\r{cursor_up(height - 1)}{cursor_forward(pad_left)}"\n        )',
+        new='            f"\\r{cursor_up(height - 1)}"\n        )',
+    ),
+    "c06-final-cursor-down-dropped": dict(
+        file="renderable/_renderable.py", props=["C06"],
+        old="                write(cursor_down(height + pad_bottom - 1))",
+        new="                write(cursor_down(height - 1))",
+    ),
+    "c06-allow-scroll-ignored": dict(
+        file="renderable/_renderable.py", props=["C06"],
+        old="                if not allow_scroll and height > terminal_height:",
+        new="                if height > terminal_height:",
+    ),
+    "c06-old-anim-padheight-unchecked": dict(
+        file="image/common.py", props=["C06"],
+        old="        if animation and pad_height > terminal_height:",
+        new="        if animation and pad_height > terminal_height + 1:",
+    ),
+    "c06-old-cursor-up-full": dict(
+        file="image/common.py", props=["C06"],
+        old='        cursor_up = CURSOR_UP % (lines - 1) if lines > 1 else ""',
+        new='        cursor_up = CURSOR_UP % lines',
+    ),
+    "c07-new-hide-cursor-outside-try": dict(
+        file="renderable/_renderable.py", props=["C07"],
+        old="        try:\n            if hide_cursor:\n                output.write(HIDE_CURSOR)\n            if not_echo_input:",
+        new="        if hide_cursor:\n            output.write(HIDE_CURSOR)\n        try:\n            if not_echo_input:",
+    ),
+    "c07-restore-only-when-hiding": dict(
+        file="renderable/_renderable.py", props=["C07", "C13"],
+        old="            if not_echo_input:\n                termios.tcsetattr(output_fd, termios.TCSANOW, old_attr)",
+        new="            if not_echo_input and hide_cursor:\n                termios.tcsetattr(output_fd, termios.TCSANOW, old_attr)",
+    ),
+    "c07-kitty-handler-without-st": dict(
+        file="image/kitty.py", props=["C07"],
+        old='print(ctlseqs.ST * 2 + ctlseqs.KITTY_END_CHUNKED, end="", flush=True)',
+        new='print(ctlseqs.KITTY_END_CHUNKED, end="", flush=True)',
+    ),
+    "c07-kitty-handler-without-end-chunk": dict(
+        file="image/kitty.py", props=["C07"],
+        old='print(ctlseqs.ST * 2 + ctlseqs.KITTY_END_CHUNKED, end="", flush=True)',
+        new='print(ctlseqs.ST * 2, end="", flush=True)',
+    ),
+    "c07-iterm-handler-removed": dict(
+        file="image/iterm2.py", props=["C07"],
+        old='        print(ctlseqs.ST * 2, end="", flush=True)',
+        new='        pass',
+    ),
+    "c07-dynamic-size-not-restored": dict(
+        file="image/common.py", props=["C07", "C11"],
+        old="        finally:\n            if isinstance(_size, Size):\n                self.size = _size",
+        new="        finally:\n            if isinstance(_size, Size) and not animated:\n                self.size = _size",
+    ),
+    "c07-seek-position-not-restored": dict(
+        file="image/common.py", props=["C07", "C11"],
+        old="            self._seek_position = prev_seek_pos\n",
+        new="            self._seek_position = prev_seek_pos if interrupted is False else self._seek_position\n",
+    ),
+    "c07-still-kbint-swallowed": dict(
+        file="image/common.py", props=["C07"],
+        old="                    except (KeyboardInterrupt, Exception):\n                        self._handle_interrupted_draw()\n                        raise",
+        new="                    except KeyboardInterrupt:\n                        self._handle_interrupted_draw()\n                    except Exception:\n                        self._handle_interrupted_draw()\n                        raise",
+    ),
 }
